@@ -302,7 +302,35 @@ def semicolon_rule(ctx, rule):
            "html5ever tokenizer char_ref finish_named")
 
 
+def in_attribute_flag_rule(ctx, rule):
+    """the 'consumed as part of an attribute' flag handed to the char-ref sub-tokenizer is true exactly in the three attribute value states"""
+    T = ctx.tables("html")
+    pcs = T["helpers"].get("start_consuming_character_reference")
+    if not pcs:
+        raise AnchorMissing("start_consuming_character_reference not tabulated")
+    n = 0
+    bad = None
+    for pc in pcs:
+        news = [str(args[0]) for a, args in pc["actions"] if a == "assign self.char_ref_tokenizer" and args]
+        if not news:
+            continue
+        n += 1
+        gl = [(k, v) for k, v in pc["guards"].items() if "AttributeValue" in k]
+        m = re.fullmatch(r"self\.state(\.get\(\))? matches AttributeValue\((.*)\)", gl[0][0]) if len(gl) == 1 else None
+        kinds = {v["name"] for v in T["machine"].enums.get("AttrValueKind", {}).get("variants", [])}
+        alts = set(a.strip() for a in m.group(2).split("|")) if m else set()
+        if m is None or not (alts == {"_"} or (kinds and alts == kinds)):
+            bad = "the flag depends on %s, not on 'state is any AttributeValue(_)' (double-quoted, single-quoted and unquoted values alike)" % [k for k, _ in gl]
+            continue
+        want = "Some(new(%s))" % ("true" if gl[0][1] else "false")
+        if news[0] != want:
+            bad = "in %s the sub-tokenizer is created as %s" % ("an attribute value state" if gl[0][1] else "a non-attribute state", news[0])
+    ctx.ob(rule, "char-ref-in-attribute-flag", bad is None and n == 2, bad or "CharRefTokenizer::new(true) exactly when the state is AttributeValue(_), new(false) otherwise", "html5ever tokenizer start_consuming_character_reference")
+
+
 def run(ctx):
+    ctx.rule("R14.7", "the legacy attribute exception is enabled in all three attribute value states and nowhere else")
+    ctx.guard("R14.7", "in-attribute", lambda: in_attribute_flag_rule(ctx, "R14.7"))
     ctx.rule("R14.6", "a matched named reference ending in ';' is always decoded; the legacy attribute exception is tested only after that, on the character that follows the match in name_buf")
     ctx.guard("R14.6", "semicolon", lambda: semicolon_rule(ctx, "R14.6"))
     ctx.rule("R14.1", "web_atoms/entities.rs equals CPython html.entities.html5 (name -> code points), both directions")
